@@ -14,7 +14,7 @@ ANCHORS = ["Lanelet.interpolate_position", "Lanelet.merge_lanelets", "Lanelet.fi
            "Lanelet.find_lanelet_predecessors_in_range", "Lanelet._compute_polyline_cumsum_dist"]
 REQUIRED = ["interp.at-vertex", "interp.zero", "interp.full-length", "interp.interior", "merge.pred-first",
             "merge.suc-first", "merge.nonuniform-spacing", "graph.cyclic", "graph.diamond-or-merge", "graph.branching",
-            "range.equal-to-partial-length", "pred-search", "succ-search", "graph.curved-lanelets", "merge.via-all_lanelets_by_merging"]
+            "range.equal-to-partial-length", "pred-search", "succ-search", "graph.curved-lanelets", "poly.int-dtype", "merge.via-all_lanelets_by_merging"]
 EXHAUSTIVE = {"quick": "all directed graphs without self loops on 1..3 nodes (as successor relations) x start node x "
                        "range limits {below, equal, above} every partial path length",
               "thorough": "all directed graphs without self loops on 1..4 nodes x start node x range limits"}
@@ -42,7 +42,15 @@ def arc_walk(poly, s):
 
 def gen_polyline(rng):
     n = rng.choice([2, 2, 3, 4, 5, 8])
-    kind = rng.choice(["straight", "curved", "mixed-lengths", "zigzag", "far"])
+    kind = rng.choice(["straight", "curved", "mixed-lengths", "zigzag", "far", "int-dtype"])
+    if kind == "int-dtype":
+        # integer coordinates handed over as integer-dtype arrays (valid polylines); segment lengths are irrational
+        x, y, pts = rng.randint(-20, 20), rng.randint(-20, 20), []
+        for i in range(n):
+            pts.append((x, y))
+            x += rng.randint(1, 4)
+            y += rng.choice([-3, -2, -1, 0, 1, 2, 3])
+        return pts, kind
     pts = [(rng.uniform(-50, 50), rng.uniform(-50, 50))]
     if kind == "far":
         pts = [(rng.uniform(1e5, 7e5), rng.uniform(5e6, 6e6))]
@@ -97,7 +105,11 @@ def run(ctx):
     n = ctx.pick(600, 40000)
     for i, rng in ctx.cases("arc", n):
         poly, kind = gen_polyline(rng)
-        la = mk_lanelet(1, poly)
+        if kind == "int-dtype":
+            cen = np.array(poly, dtype=int)
+            la = Lanelet(cen + np.array([0, 2]), cen, cen - np.array([0, 2]), 1)
+        else:
+            la = mk_lanelet(1, poly)
         ctx.evaluation()
         ctx.fingerprint(["arc", kind, len(poly), round(poly[0][0], 3)])
         ctx.feature("poly." + kind)
